@@ -232,6 +232,67 @@ pub proof fn lemma_zeta_r<E: Endianness>(s: Seq<bool>, p: int, pos1: int, pos2: 
 //@PROOF after=[[let res = backend.read_minimal_binary((l << k).wrapping_sub(l))?;]] proof { lemma_zeta_r::<BO>(old(backend).stream(), old(backend).pos() as int, pos1, backend.pos() as int, hq, l, (l << (k as u64)).wrapping_sub(l), res, k); }
 //@END
 
+// ---------------------------------------------------------------------------
+// zeta_1 = gamma (the identity the dispatchers rely on: `Codes::Zeta { k: 1 }` is
+// written with write_gamma / measured with len_gamma)
+// ---------------------------------------------------------------------------
+pub open spec fn gamma_bits(le: bool, n: u64) -> Seq<bool> {
+    unary(log2f((n + 1) as u64)) + field(le, (n + 1) as u64, log2f((n + 1) as u64))
+}
+pub open spec fn gamma_len(n: u64) -> nat {
+    2 * log2f((n + 1) as u64) + 1
+}
+
+pub proof fn lemma_zeta1_is_gamma(le: bool, n: u64)
+    requires n < u64::MAX,
+    ensures zeta_bits(le, n, 1) =~= gamma_bits(le, n), zeta_len(n, 1) == gamma_len(n),
+{
+    let m = (n + 1) as u64;
+    lemma_log2f_exists(m);
+    let lg = log2f(m);
+    let h = zeta_h(n, 1);
+    assert(h == lg);
+    lemma_zeta_spec(n, 1);
+    let l = zeta_l(n, 1);
+    let u = zeta_u(n, 1) as u64;
+    let x = (m - l) as u64;
+    lemma2_to64();
+    lemma2_to64_rest();
+    assert(l == pow2(lg));
+    // the interval has 2^lg elements: every codeword is short (lg bits)
+    if lg + 1 >= 64 {
+        assert(lg == 63);
+        assert(u == 0x1_0000_0000_0000_0000 - pow2(63));
+        assert(u == pow2(63));
+    } else {
+        lemma_pow2_unfold(lg + 1);
+        assert(u == pow2(lg));
+    }
+    lemma_pow2_unfold(lg + 1);
+    lemma_log2f(u, lg);
+    assert(mb_limit(u) == u);
+    assert(mb_bits(le, x, u) == field(le, x, lg));
+    // the lg low bits of m = 2^lg + x are those of x
+    assert forall|i: int| 0 <= i < lg implies #[trigger] field(le, x, lg)[i] == field(le, m, lg)[i] by {
+        let j: nat = if le { i as nat } else { (lg - 1 - i) as nat };
+        lemma_pow2_pos(j);
+        lemma_pow2_adds(j, (lg - j) as nat);
+        let pj = pow2(j);
+        let pd = pow2((lg - j) as nat);
+        lemma_pow2_unfold((lg - j) as nat);
+        let half = pow2((lg - j - 1) as nat);
+        // m / 2^j = x / 2^j + 2^(lg-j), and 2^(lg-j) is even
+        assert((pj * pd + x) as int / (pj as int) == pd as int + x as int / (pj as int)) by {
+            lemma_fundamental_div_mod(x as int, pj as int);
+            lemma_div_multiples_vanish_fancy(pd as int, x as int % (pj as int), pj as int);
+            lemma_hoist_over_denominator(x as int, pd as int, pj);
+        }
+        assert(pd == 2 * half);
+        lemma_mod_multiples_vanish(half as int, (x as nat / pj) as int, 2);
+    }
+    assert(field(le, x, lg) =~= field(le, m, lg));
+}
+
 } // verus!
 
 fn main() {}
